@@ -119,10 +119,18 @@ pub(crate) fn without_terminator(
     bytes: &[u8],
     line_term: LineTerminator,
 ) -> &[u8] {
-    let line_term = line_term.as_bytes();
-    let start = bytes.len().saturating_sub(line_term.len());
-    if bytes.get(start..) == Some(line_term) {
-        return &bytes[..bytes.len() - line_term.len()];
+    let term = line_term.as_bytes();
+    let start = bytes.len().saturating_sub(term.len());
+    if bytes.get(start..) == Some(term) {
+        return &bytes[..bytes.len() - term.len()];
+    }
+    // With CRLF line terminators the `\r` is optional: a line that ends with
+    // a bare `\n` is terminated all the same.
+    if line_term.is_crlf()
+        && !bytes.is_empty()
+        && bytes[bytes.len() - 1] == b'\n'
+    {
+        return &bytes[..bytes.len() - 1];
     }
     bytes
 }
